@@ -135,6 +135,15 @@ static int open_sim(const char* path, int flags)
 		errno = EACCES;
 		return -1;
 	}
+	{
+		// NAME_MAX as on every Linux file system: a file name (last path component) longer than 255 bytes cannot exist
+		size_t slash = p.rfind('/');
+		if(p.size() - (slash == std::string::npos ? 0 : slash + 1) > 255)
+		{
+			errno = ENAMETOOLONG;
+			return -1;
+		}
+	}
 	if(g_fd_limit && opened().size() >= g_fd_limit)
 	{
 		// the simulated process's descriptor table is full (a small RLIMIT_NOFILE): only code that forgets to close gets here
